@@ -569,6 +569,9 @@ func rankEnc(rk age.Rank) string {
 	return "None"
 }
 
+// the text of the last panic that was not the depth-limit panic (for the human-readable trace)
+var lastOtherPanic string
+
 func doRank(c age.CollatorLike[any], a, b any) string {
 	var rk age.Rank
 	oc, msg := guard(func() { rk = c.RankValues(a, b) })
@@ -576,6 +579,7 @@ func doRank(c age.CollatorLike[any], a, b any) string {
 		if classifyPanic(msg) == "DepthPanic" {
 			return "(Some DepthPanic)"
 		}
+		lastOtherPanic = msg
 		return "None"
 	}
 	return rankEnc(rk)
@@ -587,6 +591,7 @@ func doCompare(c age.CollatorLike[any], a, b any) string {
 		if classifyPanic(msg) == "DepthPanic" {
 			return "(Some DepthPanic)"
 		}
+		lastOtherPanic = msg
 		return "None"
 	}
 	return fmt.Sprintf("(Some (R %v))", res)
@@ -709,7 +714,11 @@ func genCollate(prop string, seed uint64, tier, outDir string, count int) error 
 				obs2 = doCompare(cl, b, a)
 			}
 			calls = append(calls, fmt.Sprintf("%s %s %s %s", ctor, eb, ea, obs2))
-			human = append(human, fmt.Sprintf("%s(mirror) => %s", kind, obs2))
+			if obs2 == "None" {
+				human = append(human, fmt.Sprintf("%s(mirror) => %s [panic: %s]", kind, obs2, lastOtherPanic))
+			} else {
+				human = append(human, fmt.Sprintf("%s(mirror) => %s", kind, obs2))
+			}
 			meta.Steps++
 		}
 		cases = append(cases, fmt.Sprintf("{| cc_max := %d; cc_calls := [\n  %s] |}", maximum, strings.Join(calls, ";\n  ")))
@@ -866,27 +875,27 @@ func neighbourLeaf(r *rng, x *node) *node {
 	return y
 }
 
-// Go type family of a container node as far as reflect kinds of its ELEMENTS are concerned
+// Go type family of a container node as far as reflect kinds of its ELEMENTS are concerned:
+// every typed container kind is a family of its own, the containers over `any` of one coarse type share one
 func elemTyping(k string) string {
 	switch k {
-	case "slice", "nilslice":
-		return "slice-of-any"
-	case "ints", "strs", "flts", "iis":
-		return "typed-slice:" + k
-	case "gomap", "nilmap":
-		return "map-of-any"
-	case "msi":
-		return "typed-map"
+	case "ints", "strs", "flts", "iis", "msi", "lint", "sstr":
+		return "typed:" + k
 	}
-	return ""
+	return "any"
 }
 
+// the coarse type name under which the collator files a container (getType)
 func coarse(k string) string {
 	switch k {
 	case "slice", "nilslice", "ints", "strs", "flts", "iis":
 		return "array"
 	case "gomap", "nilmap", "msi":
 		return "map"
+	case "lint":
+		return "list"
+	case "sstr":
+		return "set"
 	}
 	return k
 }
